@@ -201,7 +201,7 @@ def make_judges(ctx):
                 lp = snapmap.get(id(lk), (None, None))[0]
                 cur = lp.fmt() if lp is not None else None
             else:
-                cur = src_pre.fmt()
+                cur = None      # sizes that are not given are inferred from the value (C06), not copied from the source
             try:
                 if d.get('dtype') is not None:
                     sg, w, nf, cx = R.parse_dtype(d['dtype'])
@@ -213,7 +213,12 @@ def make_judges(ctx):
             if d.get('raw') or 'scale' in d or 'bias' in d:
                 ctx.skip('conv:raw or scaled construction')
                 return
-            dom = want
+            if want is None or want[1] is None or want[2] is None:
+                # inferred destination format: only the value clause applies, in whatever format resulted
+                want = None
+                dom = post_dst.fmt() if post_dst is not None else None
+            else:
+                dom = want
         else:
             dom = pre_dst.fmt() if pre_dst is not None else None
             want = dom
@@ -384,6 +389,19 @@ def run_case(case, ctx):
                 return Fxp(v, fs[0], fs[1], fs[2])
             return Fxp(int(v), fs[0], fs[1], fs[2])
         all_routes(Fxp, mk_src, fd, r, o)
+        if i % 4 == 0 and fs[1] <= 40:
+            # a source filled from a list of (unsigned) NumPy scalars under wrap: its codes can be negative, its value dtype unsigned
+            m = 1 << fs[1]
+            for dt in (np.uint64, np.uint32, np.int16):
+                raws = [c % m if dt != np.int16 else max(-2 ** 15, min(2 ** 15 - 1, c)) for c in codes[:3]] or [0]
+                try:
+                    lst = [dt(v) for v in raws]
+                except OverflowError:
+                    continue
+                def mk2():
+                    return Fxp(list(lst), fs[0], fs[1], 0, overflow='wrap')
+                if _try(mk2) is not None:
+                    all_routes(Fxp, mk2, (fd[0], fd[1], max(-8, min(fd[2], fd[1] + 8))), r, o, routes=('ctor_sizes', 'ctor_like', 'set_val', 'like', 'equal', 'resize', 'setitem'))
         return
     if k == 'chain':
         fs = G.core_format(rng)
